@@ -2303,6 +2303,20 @@ package gomatrixserverlib
 //@   ensures result-is-the-reassembled-event: result[1] == nil ==> (called(Marshal) && result[0] == ret(Marshal, 0))
 //@   assigns nothing
 
+// editing one unsigned field of a parsed event: only a path BELOW "unsigned" of the stored JSON is set, the result is
+// re-canonicalised, and neither the cached event ID nor the redacted flag nor the room version is touched (the ID of a
+// v1/v2 event is its stored event_id; of a v3+ event the hash, which ignores unsigned - referenceOfEvent's contract)
+//@ func (*eventV1).SetUnsignedField
+//@   property C03
+//@   nosafety
+//@   requires e != nil
+//@   calls SetBytes@root only-below-unsigned: str(json) == old(str(e.eventJSON)) && path == "unsigned." + root_path
+//@   calls CanonicalJSONAssumeValid@root the-edited-json: input == ret(SetBytes, 0)
+//@   ensures id-flag-and-version-untouched: e.EventIDRaw == old(e.EventIDRaw) && e.redacted == old(e.redacted) && e.roomVersion == old(e.roomVersion)
+//@   ensures an-error-changes-nothing: result != nil ==> e.eventJSON == old(e.eventJSON)
+//@   ensures stored-json-is-the-canonical-edit: result == nil ==> e.eventJSON == ret(CanonicalJSONAssumeValid)
+//@   assigns *e
+
 //@ func (*EventBuilder).Build
 //@   property C03, C17
 //@   nosafety
